@@ -30,6 +30,9 @@ pub struct Case {
     /// writer 0 first makes a commit that has to grow the file and whose space reservation
     /// (fallocate) is refused: it must report the error and leave every lock free
     pub alloc_fault: bool,
+    /// writer 0 first makes a commit whose header write fails (nothing of it becomes visible); the
+    /// increments of all writers follow
+    pub header_fault: bool,
     pub writers: usize,
     pub readers: usize,
     pub liveness: bool,
@@ -41,30 +44,32 @@ pub struct Case {
 pub fn cases(tier: Tier) -> Vec<Case> {
     let q = tier == Tier::Quick;
     let mut v = vec![
-        Case { alloc_fault: false, pagesize: 0, torn_slot: false, big_value: false, fsync_fault: false, mmap_fault: false, writers: 1, readers: 1, liveness: true, num_pages: 4, bound: if q { 4 } else { 8 } },
-        Case { alloc_fault: false, pagesize: 0, torn_slot: false, big_value: false, fsync_fault: false, mmap_fault: false, writers: 1, readers: 1, liveness: true, num_pages: 64, bound: if q { 4 } else { 8 } },
-        Case { alloc_fault: false, pagesize: 0, torn_slot: false, big_value: false, fsync_fault: false, mmap_fault: false, writers: 2, readers: 1, liveness: false, num_pages: 4, bound: if q { 2 } else { 3 } },
-        Case { alloc_fault: false, pagesize: 0, torn_slot: false, big_value: false, fsync_fault: false, mmap_fault: false, writers: 3, readers: 0, liveness: false, num_pages: 4, bound: if q { 1 } else { 2 } },
-        Case { alloc_fault: false, pagesize: 0, torn_slot: false, big_value: false, fsync_fault: false, mmap_fault: false, writers: 2, readers: 0, liveness: false, num_pages: 64, bound: if q { 3 } else { 4 } },
+        Case { header_fault: false, alloc_fault: false, pagesize: 0, torn_slot: false, big_value: false, fsync_fault: false, mmap_fault: false, writers: 1, readers: 1, liveness: true, num_pages: 4, bound: if q { 4 } else { 8 } },
+        Case { header_fault: false, alloc_fault: false, pagesize: 0, torn_slot: false, big_value: false, fsync_fault: false, mmap_fault: false, writers: 1, readers: 1, liveness: true, num_pages: 64, bound: if q { 4 } else { 8 } },
+        Case { header_fault: false, alloc_fault: false, pagesize: 0, torn_slot: false, big_value: false, fsync_fault: false, mmap_fault: false, writers: 2, readers: 1, liveness: false, num_pages: 4, bound: if q { 2 } else { 3 } },
+        Case { header_fault: false, alloc_fault: false, pagesize: 0, torn_slot: false, big_value: false, fsync_fault: false, mmap_fault: false, writers: 3, readers: 0, liveness: false, num_pages: 4, bound: if q { 1 } else { 2 } },
+        Case { header_fault: false, alloc_fault: false, pagesize: 0, torn_slot: false, big_value: false, fsync_fault: false, mmap_fault: false, writers: 2, readers: 0, liveness: false, num_pages: 64, bound: if q { 3 } else { 4 } },
     ];
-    v.push(Case { alloc_fault: false, pagesize: 0, torn_slot: false, big_value: false, fsync_fault: false, mmap_fault: true, writers: 1, readers: if q { 1 } else { 2 }, liveness: false, num_pages: 4, bound: if q { 2 } else { 3 } });
-    v.push(Case { alloc_fault: false, pagesize: 0, torn_slot: false, big_value: false, fsync_fault: false, mmap_fault: true, writers: 2, readers: 1, liveness: false, num_pages: 4, bound: if q { 1 } else { 2 } });
-    v.push(Case { alloc_fault: true, pagesize: 0, torn_slot: false, big_value: false, fsync_fault: false, mmap_fault: false, writers: 2, readers: 1, liveness: false, num_pages: 4, bound: if q { 1 } else { 2 } });
-    v.push(Case { alloc_fault: false, pagesize: 0, torn_slot: false, big_value: false, fsync_fault: true, mmap_fault: false, writers: 1, readers: if q { 1 } else { 2 }, liveness: false, num_pages: 64, bound: if q { 2 } else { 3 } });
-    v.push(Case { alloc_fault: false, pagesize: 0, torn_slot: false, big_value: false, fsync_fault: true, mmap_fault: false, writers: 2, readers: 1, liveness: false, num_pages: 64, bound: if q { 1 } else { 2 } });
-    v.push(Case { alloc_fault: false, pagesize: 0, torn_slot: false, big_value: true, fsync_fault: false, mmap_fault: false, writers: 2, readers: 1, liveness: false, num_pages: 4, bound: if q { 0 } else { 1 } });
+    v.push(Case { header_fault: false, alloc_fault: false, pagesize: 0, torn_slot: false, big_value: false, fsync_fault: false, mmap_fault: true, writers: 1, readers: if q { 1 } else { 2 }, liveness: false, num_pages: 4, bound: if q { 2 } else { 3 } });
+    v.push(Case { header_fault: false, alloc_fault: false, pagesize: 0, torn_slot: false, big_value: false, fsync_fault: false, mmap_fault: true, writers: 2, readers: 1, liveness: false, num_pages: 4, bound: if q { 1 } else { 2 } });
+    v.push(Case { header_fault: true, alloc_fault: false, pagesize: 0, torn_slot: false, big_value: false, fsync_fault: false, mmap_fault: false, writers: 3, readers: 0, liveness: false, num_pages: 64, bound: if q { 1 } else { 2 } });
+    v.push(Case { header_fault: true, alloc_fault: false, pagesize: 0, torn_slot: false, big_value: false, fsync_fault: false, mmap_fault: false, writers: 2, readers: 1, liveness: false, num_pages: 64, bound: if q { 1 } else { 2 } });
+    v.push(Case { header_fault: false, alloc_fault: true, pagesize: 0, torn_slot: false, big_value: false, fsync_fault: false, mmap_fault: false, writers: 2, readers: 1, liveness: false, num_pages: 4, bound: if q { 1 } else { 2 } });
+    v.push(Case { header_fault: false, alloc_fault: false, pagesize: 0, torn_slot: false, big_value: false, fsync_fault: true, mmap_fault: false, writers: 1, readers: if q { 1 } else { 2 }, liveness: false, num_pages: 64, bound: if q { 2 } else { 3 } });
+    v.push(Case { header_fault: false, alloc_fault: false, pagesize: 0, torn_slot: false, big_value: false, fsync_fault: true, mmap_fault: false, writers: 2, readers: 1, liveness: false, num_pages: 64, bound: if q { 1 } else { 2 } });
+    v.push(Case { header_fault: false, alloc_fault: false, pagesize: 0, torn_slot: false, big_value: true, fsync_fault: false, mmap_fault: false, writers: 2, readers: 1, liveness: false, num_pages: 4, bound: if q { 0 } else { 1 } });
     // (a reader open while the 20 MiB commit grows the file)
-    v.push(Case { alloc_fault: false, pagesize: 0, torn_slot: false, big_value: true, fsync_fault: false, mmap_fault: false, writers: 1, readers: 1, liveness: false, num_pages: 4, bound: 2 });
+    v.push(Case { header_fault: false, alloc_fault: false, pagesize: 0, torn_slot: false, big_value: true, fsync_fault: false, mmap_fault: false, writers: 1, readers: 1, liveness: false, num_pages: 4, bound: 2 });
     // a page size that does not divide the growth step, growing from four pages
-    v.push(Case { alloc_fault: false, pagesize: 5000, torn_slot: false, big_value: false, fsync_fault: false, mmap_fault: false, writers: 2, readers: 1, liveness: false, num_pages: 4, bound: if q { 1 } else { 2 } });
+    v.push(Case { header_fault: false, alloc_fault: false, pagesize: 5000, torn_slot: false, big_value: false, fsync_fault: false, mmap_fault: false, writers: 2, readers: 1, liveness: false, num_pages: 4, bound: if q { 1 } else { 2 } });
     // one header slot torn before the threads start
-    v.push(Case { alloc_fault: false, pagesize: 0, torn_slot: true, big_value: false, fsync_fault: false, mmap_fault: false, writers: 2, readers: 1, liveness: false, num_pages: 64, bound: if q { 1 } else { 2 } });
+    v.push(Case { header_fault: false, alloc_fault: false, pagesize: 0, torn_slot: true, big_value: false, fsync_fault: false, mmap_fault: false, writers: 2, readers: 1, liveness: false, num_pages: 64, bound: if q { 1 } else { 2 } });
     if !q {
-        v.push(Case { alloc_fault: false, pagesize: 0, torn_slot: false, big_value: false, fsync_fault: false, mmap_fault: false, writers: 3, readers: 1, liveness: false, num_pages: 4, bound: 2 });
-        v.push(Case { alloc_fault: false, pagesize: 0, torn_slot: false, big_value: false, fsync_fault: false, mmap_fault: false, writers: 2, readers: 2, liveness: false, num_pages: 4, bound: 2 });
-        v.push(Case { alloc_fault: false, pagesize: 0, torn_slot: false, big_value: false, fsync_fault: false, mmap_fault: false, writers: 3, readers: 2, liveness: false, num_pages: 4, bound: 1 });
+        v.push(Case { header_fault: false, alloc_fault: false, pagesize: 0, torn_slot: false, big_value: false, fsync_fault: false, mmap_fault: false, writers: 3, readers: 1, liveness: false, num_pages: 4, bound: 2 });
+        v.push(Case { header_fault: false, alloc_fault: false, pagesize: 0, torn_slot: false, big_value: false, fsync_fault: false, mmap_fault: false, writers: 2, readers: 2, liveness: false, num_pages: 4, bound: 2 });
+        v.push(Case { header_fault: false, alloc_fault: false, pagesize: 0, torn_slot: false, big_value: false, fsync_fault: false, mmap_fault: false, writers: 3, readers: 2, liveness: false, num_pages: 4, bound: 1 });
     } else {
-        v.push(Case { alloc_fault: false, pagesize: 0, torn_slot: false, big_value: false, fsync_fault: false, mmap_fault: false, writers: 2, readers: 2, liveness: false, num_pages: 4, bound: 1 });
+        v.push(Case { header_fault: false, alloc_fault: false, pagesize: 0, torn_slot: false, big_value: false, fsync_fault: false, mmap_fault: false, writers: 2, readers: 2, liveness: false, num_pages: 4, bound: 1 });
     }
     v
 }
@@ -73,7 +78,7 @@ pub fn case_infos(tier: Tier) -> Vec<CaseInfo> {
     cases(tier)
         .iter()
         .map(|c| CaseInfo {
-            label: format!("{}w{}r{}{}-pages{}-c{}", c.writers, c.readers, if c.liveness { "-liveness" } else { "" }, if c.torn_slot { "-one-header-slot-torn" } else if c.pagesize != 0 { "-pagesize5000" } else if c.big_value { "-20MiB-value" } else if c.alloc_fault { "-fallocatefault" } else if c.mmap_fault { "-mmapfault" } else if c.fsync_fault { "-finalsyncfault" } else { "" }, c.num_pages, c.bound),
+            label: format!("{}w{}r{}{}-pages{}-c{}", c.writers, c.readers, if c.liveness { "-liveness" } else { "" }, if c.torn_slot { "-one-header-slot-torn" } else if c.pagesize != 0 { "-pagesize5000" } else if c.big_value { "-20MiB-value" } else if c.header_fault { "-headerwritefault" } else if c.alloc_fault { "-fallocatefault" } else if c.mmap_fault { "-mmapfault" } else if c.fsync_fault { "-finalsyncfault" } else { "" }, c.num_pages, c.bound),
             describe: json!({"writers": c.writers, "readers": c.readers, "writer_body": if c.liveness { "begin; put; await(reader finished); commit" } else { "begin; v = get(n); yield; put(n, v+1); yield; commit" }, "reader_body": if c.liveness { "begin; dump; drop; signal" } else { "begin; dump; yield; dump; drop" }, "initial_pages": c.num_pages, "preemption_bound": c.bound}),
         })
         .collect()
@@ -161,10 +166,11 @@ pub fn run_one(case: &Case, path: &str, prefix: &[u8], policy: RwPolicy) -> (Exe
         let liveness = case.liveness;
         let mmap_fault = case.mmap_fault && w == 0;
         let alloc_fault = case.alloc_fault && w == 0;
+        let header_fault = case.header_fault && w == 0;
         let fsync_fault = case.fsync_fault && w == 0;
         let big_value = case.big_value && w == 0;
         bodies.push(Box::new(move |ctx: &Ctx| {
-            if mmap_fault || fsync_fault || alloc_fault {
+            if mmap_fault || fsync_fault || alloc_fault || header_fault {
                 // a commit that has to grow the file and whose mmap fails: it must report the error,
                 // and the handle must stay usable (the next commit maps the grown file again)
                 let r = real::guarded(|| -> Result<(), String> {
@@ -177,7 +183,7 @@ pub fn run_one(case: &Case, path: &str, prefix: &[u8], policy: RwPolicy) -> (Exe
                         p.calls = 0;
                         p.call_kinds.clear();
                         p.fault_fired = false;
-                        p.fault = Some(if alloc_fault { crate::iosim::Fault::nth(crate::iosim::Kind::Fallocate, 0, libc::ENOSPC) } else if fsync_fault { crate::iosim::Fault::nth(crate::iosim::Kind::Fsync, 1, libc::EIO) } else { crate::iosim::Fault::nth(crate::iosim::Kind::Mmap, 0, libc::ENOMEM) });
+                        p.fault = Some(if header_fault { crate::iosim::Fault::first_write_after_sync(libc::EIO) } else if alloc_fault { crate::iosim::Fault::nth(crate::iosim::Kind::Fallocate, 0, libc::ENOSPC) } else if fsync_fault { crate::iosim::Fault::nth(crate::iosim::Kind::Fsync, 1, libc::EIO) } else { crate::iosim::Fault::nth(crate::iosim::Kind::Mmap, 0, libc::ENOMEM) });
                     });
                     let res = tx.commit();
                     let fired = crate::iosim::with_plan(|p| {
